@@ -192,6 +192,12 @@ type fedObs struct {
 }
 
 func fedRun(fed *Fed, text, op string, vars map[string]interface{}) fedObs {
+	return fedRunOn(fed, nil, text, op, vars)
+}
+
+// fedRunOn executes on the given plans (as a plan cache hands them to every request with that
+// key) instead of planning afresh
+func fedRunOn(fed *Fed, plans gateway.QueryPlanList, text, op string, vars map[string]interface{}) fedObs {
 	fed.Ctl.mu.Lock()
 	fed.Ctl.Calls = nil
 	fed.Ctl.Effects = map[string]int{}
@@ -208,6 +214,11 @@ func fedRun(fed *Fed, text, op string, vars map[string]interface{}) fedObs {
 				ch <- res{pe: fmt.Errorf("PANIC %v", p)}
 			}
 		}()
+		if plans != nil {
+			d, ee := fed.GW.Execute(&gateway.RequestContext{Context: context.Background(), Query: text, OperationName: op, Variables: vars}, plans)
+			ch <- res{d, nil, ee}
+			return
+		}
 		d, pe, ee := fed.Run(context.Background(), text, op, vars)
 		ch <- res{d, pe, ee}
 	}()
@@ -270,7 +281,7 @@ func (c *CoqFile) observed(o fedObs, fed *Fed) string {
 }
 
 func fedKnobs(r *rand.Rand, prop string) qKnobs {
-	k := qKnobs{Depth: 1 + r.Intn(3), InlineFrags: true, Untyped: r.Intn(2) == 0, Directives: r.Intn(2) == 0, FragDirs: r.Intn(3) == 0,
+	k := qKnobs{Depth: 1 + r.Intn(3), InlineFrags: true, Untyped: r.Intn(2) == 0, Directives: r.Intn(2) == 0, FragDirs: r.Intn(2) == 0,
 		Variables: true, Aliases: true, AliasShadow: r.Intn(2) == 0, Typename: true, RepeatKeys: r.Intn(3) == 0, NodeField: r.Intn(3) == 0,
 		Mutation: r.Intn(4) == 0, MaxFields: 3 + r.Intn(3), NamedFrags: r.Intn(3) == 0, NoNestedFrag: r.Intn(2) == 0,
 		AliasID: r.Intn(12) == 0, VarNamedID: r.Intn(12) == 0}
@@ -369,7 +380,7 @@ func runFed(cfg *runCfg, prop string) error {
 			fed.Ctl.Fault = nil
 			nfaults := 0
 			if one.FaultPc > 0 {
-				kinds := []string{FaultTransport, FaultPartial, FaultErrsNull, FaultNodeNull, FaultWrong}
+				kinds := []string{FaultTransport, FaultPartial, FaultErrsNull, FaultNodeNull, FaultWrong, FaultErrsNode}
 				fed.Ctl.Fault = func(c *Call) string {
 					f := faultFor(one.Salt, one.FaultPc, c)
 					if f == "" {
@@ -377,7 +388,7 @@ func runFed(cfg *runCfg, prop string) error {
 					}
 					// spread over all five kinds; the last two only make sense for follow-up fetches
 					k := kinds[int(one.Salt+uint32(len(c.Query)))%len(kinds)]
-					if _, dep := c.Vars["id"]; !dep && (k == FaultNodeNull || k == FaultWrong) {
+					if _, dep := c.Vars["id"]; !dep && (k == FaultNodeNull || k == FaultWrong || k == FaultErrsNode) {
 						k = FaultTransport
 					}
 					return k
@@ -515,6 +526,23 @@ func runFed(cfg *runCfg, prop string) error {
 				unknown := fedRun(fed, q.Text, "NoSuchOperation", q.Vars)
 				c.Printf("Definition unk%d := %s.\n", id, c.observed(unknown, fed))
 				oracle = fmt.Sprintf("c17_holds exp%d obs%d red%d && (Nat.leb %d 1 || c17_unknown_name_holds unk%d)", id, id, id, len(parsed.Operations), id)
+				// the same QueryPlanList looked up again and again, as under the plan cache: every
+				// operation of the document, last to first and back, against its fresh-plan answer
+				if shared, perr := fed.Plan(q.Text); perr == nil && len(parsed.Operations) > 1 {
+					order := []int{}
+					for k := len(q.Ops) - 1; k >= 0; k-- {
+						order = append(order, k)
+					}
+					order = append(order, one.OpIndex, 0)
+					pairs := []string{}
+					for _, k := range order {
+						fresh := fedRun(fed, q.Text, q.Ops[k], q.Vars)
+						again := fedRunOn(fed, shared, q.Text, q.Ops[k], q.Vars)
+						pairs = append(pairs, "("+c.observed(fresh, fed)+", "+c.observed(again, fed)+")")
+					}
+					c.Printf("Definition reuse%d := [%s].\n", id, strings.Join(pairs, "; "))
+					oracle += fmt.Sprintf(" && c17_reuse_holds reuse%d", id)
+				}
 			}
 			c.Printf("Eval vm_compute in (%d%%nat, %s, %s, %s).\n", id, model, oracle, guards)
 			key, _ := json.Marshal(one)
